@@ -36,6 +36,7 @@ implementation-side oracle and the correspondence runs of checks/C05.py):
 import MpcVerif.Proofs.Gc
 import MpcVerif.Proofs.Stream
 import MpcVerif.Model.LabelBV
+import MpcVerif.Model.Proto2
 
 namespace Mpc
 open LabelAlg Mpc.Gc Mpc.Stream
@@ -179,6 +180,54 @@ theorem C05_stream_decode [DecidableEq L] (r : L) (hr : sbit r = true) (gw : Wir
   · simp
   · simp [Ne.symm hne]
 
+/-! ### The whole streaming session: circuits, `OpReturn`, result decoding
+
+The tail of `Program.Stream` / `StreamEvaluator`: on `ret` the garbler sends
+`OpReturn` and the wire ids of the return values (`retIds`, in result bit
+order); the evaluator answers `OpResult` with the labels it holds on those
+ids; the garbler compares the i-th label with the two labels of wire
+`retIds[i]` (`L0` gives 0, `L1` gives 1, anything else is the error "unknown
+label") -- `Mpc.decodeLabels` of Model/Proto2.lean, the same decoding as in
+whole-circuit mode -- and sends the bits back, so both parties return the
+same value. -/
+
+/-- One streaming session after the input phase: `gs0` / `es0` are the two
+parties' wire stores once the garbler's own input labels and the OT'd labels
+of the evaluator's input are in place. -/
+def streamSession [DecidableEq L] (H : Hash L) (r : L) (p : SProg) (retIds : List Nat)
+    (gs0 : SStore (WireL L)) (es0 : SStore L) : Except ProtoErr (List Bool) :=
+  let g := garbleAll H r p gs0 0
+  match evalAll H g.2.2 es0 0 with
+  | .error e => .error (.eval e)
+  | .ok (es, _) => decodeLabels (retIds.map g.1.getGlob) (retIds.map es.getGlob)
+
+theorem decodeLabels_rel [DecidableEq L] (r : L) (hr : sbit r = true) (gs : SStore (WireL L)) (es : SStore L)
+    (ps : SStore Bool) (ids : List Nat)
+    (h : ∀ w ∈ ids, Rel r (gs.getGlob w) (es.getGlob w) (ps.getGlob w)) :
+    decodeLabels (ids.map gs.getGlob) (ids.map es.getGlob) = .ok (ids.map ps.getGlob) := by
+  induction ids with
+  | nil => rfl
+  | cons w ws ih =>
+    simp only [List.map_cons, decodeLabels]
+    rw [C05_stream_decode r hr _ _ _ (h w List.mem_cons_self)]
+    simp only [ih (fun x hx => h x (List.mem_cons_of_mem _ hx))]
+
+/-- Streaming-mode counterpart of `C02_both_get_f`: for every hash pair, offset
+with select bit, id maps and streamed program that only reads related
+locations (`wfAll`), with the return wires among the defined global wires, the
+session takes no error branch and the garbler decodes exactly the bits that
+the composition of the circuits' plain semantics puts on the return wires
+(which it then sends to the evaluator: both parties return them). -/
+theorem C05_stream_session [DecidableEq L] (H : Hash L) (r : L) (hr : sbit r = true) (p : SProg)
+    (retIds : List Nat) (gs0 : SStore (WireL L)) (es0 : SStore L) (ps0 : SStore Bool) (D : Loc → Prop)
+    (hinv : SInv r D gs0 es0 ps0) (hwf : wfAll p D)
+    (hret : ∀ w ∈ retIds, definedAll p D (false, w)) :
+    streamSession H r p retIds gs0 es0 = .ok (retIds.map (plainAll p ps0).getGlob) := by
+  obtain ⟨es', hev, hfin⟩ := C05_stream_program H r hr p gs0 es0 ps0 0 D hinv hwf
+  unfold streamSession
+  simp only [hev]
+  exact decodeLabels_rel r hr _ es' _ retIds (fun w hw => hfin (false, w) (hret w hw))
+
 /-! Non-vacuity: a two-circuit stream with ids on both sides of 65535, a
 temporary wire, and a circuit that reads the previous circuit's output. -/
 def exProg : SProg :=
@@ -187,6 +236,9 @@ def exProg : SProg :=
 
 example : wfAll exProg (fun l => l = (false, 3) ∨ l = (false, 70000)) := by
   simp [exProg, wfAll, sWf, sDefinedAfter, SCtx.locate, SCtx.firstTmp, SCtx.firstOut, Op.binary]
+
+example : ∀ w ∈ [5, 70001], definedAll exProg (fun l => l = (false, 3) ∨ l = (false, 70000)) (false, w) := by
+  simp [exProg, definedAll, sDefinedAfter, SCtx.locate, SCtx.firstTmp, SCtx.firstOut]
 
 /-! ## Compile side -/
 
@@ -255,10 +307,23 @@ theorem C05_gc_safe_transitive (prog out : List Step) (al : Nat → List Nat) (h
 id range is returned to a free list while a value whose ids point into it
 (transitively, through mov / smov / slice / lshift / rshift / srshift / amov /
 concat rewiring) is still read later.  No restriction on aliasing. -/
-theorem C05_gc_safe (prog out : List Step) (hwf : WF prog) (hgc : gcPass prog = some out) :
+theorem C05_gcInsert_safe (prog out : List Step) (hwf : WF prog) (hgc : gcInsert prog = some out) :
     Safe prog out :=
   C05_gc_safe_transitive prog out (aliasClosure (aliasesOf prog) prog.length) hwf
     (fun w v h hne => closure_covers prog hwf.dbu w v h hne) hgc
+
+/-- `Program.GC` = `defineBeforeUse` + gc insertion, on a well-formed list. -/
+theorem C05_gc_safe (prog out : List Step) (hwf : WF prog) (hgc : gcPass prog = some out) :
+    Safe prog out := by
+  unfold gcPass at hgc
+  rw [defineBeforeUse_id prog hwf.dbu] at hgc
+  exact C05_gcInsert_safe prog out hwf hgc
+
+/-- ... and on any list whose reordering is well formed (`wfSteps` of the real
+step list is evaluated on every compilation by the check). -/
+theorem C05_gc_safe_reordered (prog out : List Step) (hwf : WF (defineBeforeUse prog))
+    (hgc : gcPass prog = some out) : Safe (defineBeforeUse prog) out :=
+  C05_gcInsert_safe (defineBeforeUse prog) out hwf hgc
 
 def mkV (id bits : Nat) : Arg := { const := false, id := id, key := id, bits := bits, signed := false, cint := 0 }
 def mkC (id bits n : Nat) : Arg := { const := true, id := id, key := id, bits := bits, signed := false, cint := n }
@@ -356,6 +421,61 @@ theorem C05_gc_witnesses_now_safe :
     gcPass concatProg =
       some [concatProg[0], gcStep (mkV 1 32), concatProg[1], concatProg[2], gcStep (mkV 2 32), concatProg[3]] := by
   decide
+
+/-! ### Definition before use (finding C05-ssa-use-before-def)
+
+`C05_gc_safe` assumes `WF prog`, in particular `dbu`: a value read by a step is
+not defined by that step or a later one.  `wfSteps` is evaluated on every real
+step list by the correspondence run.  Before 73f8795 it FAILED for programs
+with an early return: a lazily resolved phi is emitted into the else block
+while the continuation that reads it is serialised earlier.  Witness: the step
+list of
+
+    func main(a, b uint8) uint8 {
+        if a > 5 { b = 31 }
+        if a > 2 { a = a + 1 } else { b = 7; return b }
+        return b + a }
+
+(values: a=0 b=1 t0=2 t1=3 t2=4 t3=5 (the phi of b) t4=6 r2=7 b1=8 a1=9 b2=10
+r1=11 t5=12). -/
+def ubdProg : List Step :=
+  [⟨.circ, [mkV 0 8, mkC 20 8 5], some (mkV 2 1)⟩,
+   ⟨.mov, [mkC 21 8 31], some (mkV 8 8)⟩,
+   ⟨.circ, [mkV 0 8, mkC 22 8 2], some (mkV 3 1)⟩,
+   ⟨.circ, [mkV 0 8, mkC 23 8 1], some (mkV 4 8)⟩,
+   ⟨.mov, [mkV 4 8], some (mkV 9 8)⟩,
+   ⟨.circ, [mkV 5 8, mkV 4 8], some (mkV 6 8)⟩,          -- uadd reads the phi value t3 ...
+   ⟨.mov, [mkV 6 8], some (mkV 7 8)⟩,
+   ⟨.circ, [mkV 2 1, mkC 21 8 31, mkV 1 8], some (mkV 5 8)⟩,  -- ... which is defined here
+   ⟨.mov, [mkC 24 8 7], some (mkV 10 8)⟩,
+   ⟨.mov, [mkC 24 8 7], some (mkV 11 8)⟩,
+   ⟨.circ, [mkV 3 1, mkV 7 8, mkV 11 8], some (mkV 12 8)⟩,
+   ⟨.ret, [mkV 12 8], none⟩]
+
+/-- `defineBeforeUse` (73f8795) is the identity on step lists that are already
+in definition-before-use order: every other program's steps (and circuit) are
+unchanged by the fix. -/
+theorem C05_defineBeforeUse_id (prog : List Step) (h : dbu prog = true) : defineBeforeUse prog = prog :=
+  defineBeforeUse_id prog h
+
+/-- Old behaviour (before 73f8795, no reordering: `gcInsert` directly on the
+serialised steps): the witness list is not in definition-before-use order and
+the gc insertion frees the phi value `t3` -- after what it takes for its last
+use -- BEFORE the step that defines it; the streaming walker had by then
+allocated fresh, never garbled wires for it (Go: streamed 0x0a for a=9, b=100;
+whole circuit 0x29).  With the fix the list is reordered: a permutation in
+definition-before-use order, and `t3` is freed after its definition and use. -/
+theorem C05_old_use_before_def_witness :
+    wfSteps ubdProg = false ∧ dbu ubdProg = false ∧
+    (∃ out, gcInsert ubdProg = some out ∧
+      out.findIdx? (· == gcStep (mkV 5 8)) = some 8 ∧ out.findIdx? (fun s => s.outId == some 5) = some 10) ∧
+    wfSteps (defineBeforeUse ubdProg) = true ∧
+    (defineBeforeUse ubdProg).length = ubdProg.length ∧
+    (∀ s ∈ ubdProg, s ∈ defineBeforeUse ubdProg) ∧
+    (∃ out, gcPass ubdProg = some out ∧
+      out.findIdx? (fun s => s.outId == some 5) = some 6 ∧ out.findIdx? (· == gcStep (mkV 5 8)) = some 11) := by
+  refine ⟨by decide, by decide, ⟨_, rfl, by decide, by decide⟩, by decide, by decide, by decide,
+    ⟨_, rfl, by decide, by decide⟩⟩
 
 /-! ### The allocator's hash buckets
 
